@@ -3,14 +3,16 @@ import math, statistics
 from fractions import Fraction
 import core
 from core import num_canon
+import pipeline
 
 ID = "C12"
-LEAN_MODULES = ["KaVerif.Props.C12"]
-GEN = []
+LEAN_MODULES = ["KaVerif.Props.C12"] + pipeline.LEAN_MODULES
+GEN = ["Registry", "Units", "Tokens"]
 THEOREMS = ["KaVerif.C12_range_mem", "KaVerif.C12_range_sorted", "KaVerif.C12_range_step", "KaVerif.C12_range_step_reject",
             "KaVerif.C12_sum_prod_size_in", "KaVerif.C12_mean", "KaVerif.C12_min_max", "KaVerif.C12_median",
             "KaVerif.C12_comprehension_lockstep", "KaVerif.C12_conditions", "KaVerif.C12_condition_not_bool",
-            "KaVerif.C12_comprehension", "KaVerif.C12_comprehension_error"]
+            "KaVerif.C12_comprehension", "KaVerif.C12_comprehension_error",
+            "KaVerif.PIPE_array_sum", "KaVerif.PIPE_statements"]
 RULE = ("ranges lo..hi over bounds in [-12,12] plus huge/negative/reversed; range(lo,hi,step) with integer, fractional and float "
         "steps incl. zero/negative; arrays of 0-12 elements of every kind (ints, fractions, floats, lazy combinatorics, quantities in "
         "mixed units of one dimension, mixed-dimension for the error path, nested arrays); comprehensions with 1-3 generators of "
@@ -324,3 +326,6 @@ def check(ctx):
         # error classes inside comprehensions: the model's small expression language reports `eval` for an unbound name
         return real.startswith("err") and model.startswith("err") and {real, model} <= {"err eval", "err nomatch"}
     ctx.correspond("arr", cases, agree=agree)
+    # the same array programs as text through the unified pipeline model (status + exact display)
+    texts = [c[2] for c in cases if isinstance(c[2], str)]
+    pipeline.run(ctx, [t for t in texts[: ctx.n(2500, 25000)] if len(t) < 3000], label="run-c12", min_modelled=0.0)
